@@ -121,6 +121,13 @@ class LoadedDoc:
                     ents.append("(i%d %s)" % (self.enc.oids[id(n)], hexs(str(n))))
                 except RecursionError:
                     pass      # str() of a very deep container: the real code cannot compute it either
+            elif id(n) in self.enc.oids:
+                # repr() of the scalars: what str() of a hash the evaluator builds itself (the reduced copy
+                # of collector subtraction) is made of -- ocaml/drv_eval.ml nstr_of_table
+                try:
+                    ents.append("(i%d %s)" % (self.enc.oids[id(n)], hexs(repr(n))))
+                except Exception:  # noqa
+                    pass
         self.nstr = "(%s)" % " ".join(ents)
         # str(typed haystack) of every node, for the regex table
         self.hay_texts = []
@@ -149,10 +156,47 @@ class LoadedDoc:
         return docenc.Encoder.node(self.enc, self.data)
 
 
+def reduced_copy_texts(ld, path):
+    """str() of the hashes collector subtraction builds itself while this path is evaluated (reduced shallow
+    copies: no object of the document, so not in ld.hay_texts); gathered by running the real query on a scratch
+    load with yamlpath.processor.copy recorded.  Only a regular expression can be matched against them."""
+    import yamlpath.processor as pm
+    if not hasattr(pm, "copy"):
+        return []
+    made, orig = [], pm.copy
+
+    def recording_copy(x):
+        c = orig(x)
+        made.append(c)
+        return c
+    pm.copy = recording_copy
+    try:
+        data = load(ld.text)
+        for must in (True, False):
+            try:
+                list(_ENV["Processor"](_ENV["log"], data).get_nodes(path, mustexist=must))
+            except Exception:  # noqa
+                pass
+    finally:
+        pm.copy = orig
+    out = []
+    for c in made:
+        try:
+            t = str(c)
+        except Exception:  # noqa
+            continue
+        if t not in out and t not in ld.hay_texts:
+            out.append(t)
+    return out
+
+
 def tables_for(ld, path):
     terms, regex = path_terms(path)
     lit = oracles.lit_table(list(ld.scalars) + sorted(terms))
-    re_t = oracles.re_table([(p, t) for p in sorted(regex) for t in ld.hay_texts])
+    hay = ld.hay_texts
+    if regex and ")-" in path.replace(" ", ""):
+        hay = hay + reduced_copy_texts(ld, path)
+    re_t = oracles.re_table([(p, t) for p in sorted(regex) for t in hay])
     return lit, re_t
 
 
@@ -170,6 +214,8 @@ def parent_sexp(ld, p):
         return "(n i%d)" % ld.enc.oids[k]
     if isinstance(p, list):
         return "(l)"
+    if isinstance(p, dict):
+        return "(m)"          # a hash the evaluator built itself (collector subtraction: reduced shallow copy)
     if isinstance(p, _ENV["NodeCoords"]):
         return "(c)"
     return "(? %s)" % type(p).__name__
@@ -221,6 +267,8 @@ def item_sexp(ld, x):
         return "(n i%d)" % ld.enc.oids[k]
     if isinstance(x, list):
         return "(l%s)" % "".join(" " + item_sexp(ld, e) for e in x)
+    if isinstance(x, dict):   # the reduced shallow copy made by collector subtraction: keys by value, values as items
+        return "(m%s)" % "".join(" (%s %s)" % (docenc.pyval_sexp(k), item_sexp(ld, v)) for k, v in x.items())
     return "(? %s)" % type(x).__name__
 
 
